@@ -119,8 +119,11 @@ CheckPlans(n, v) ==
   IF ~Valid(RawEnv, TRef(n), v) THEN {}      \* out-of-root values of extensible constraints are not C08's
   ELSE {<<OpBuild(1), OpCheck(1)>>}
        \cup {<<OpBuildVal(1, x), OpCheck(1)>> : x \in Corruptions(RawEnv, TRef(n), v)}
+\* C19: the script a thread runs on one of its structures
+ThreadPlans == {<<OpBuild(1), OpEncode(1, s), OpDecode(2, s), OpCompare(1, 2), OpCheck(1), OpPrint(2), OpFree(1), OpFree(2)>> : s \in Syntaxes}
 PlansFor(n, v) ==
   CASE PlanSet = "check" -> CheckPlans(n, v)
+    [] PlanSet = "thread" -> ThreadPlans
     [] PlanSet = "sinks" -> SinkPlans(n, v)
     [] PlanSet = "mutations" -> MutPlans(n, v)
     [] PlanSet = "life" -> LifePlans(n, v)
